@@ -1,6 +1,8 @@
 package c16
 
 import (
+	"strings"
+
 	"hv/fw"
 	"hv/valuni"
 )
@@ -38,9 +40,16 @@ type genOpts struct {
 	// failAt >= 0: the invocation with this index is a failing one (overrides the chance)
 	failAt   int
 	avoid    map[string]bool // spec tags that must not occur
-	favour   string          // function chosen with probability 1/3
+	favour   string          // function chosen with probability 1/3 (several: separated by commas, one is drawn per invocation)
 	noCancel bool
 }
+
+// Probes of a VM that has failed: calls that need only a handful of instructions (less than one
+// scheduling cycle of a core) and calls that need thousands.
+var (
+	shortProbes = []Op{{Fn: "get"}, {Fn: "nothing"}, {Fn: "toggle"}, {Fn: "incr"}, {Fn: "name_len"}, {Fn: "sub", Args: []valuni.Val{iv(7), iv(2)}}}
+	longProbes  = []Op{{Fn: "while_ret", Args: []valuni.Val{iv(5000)}}, {Fn: "loop_ret", Args: []valuni.Val{iv(300)}}, {Fn: "sum_try_mid", Args: []valuni.Val{iv(30)}}}
+)
 
 func weightOf(s *fnSpec) int {
 	if s.Weight > 0 {
@@ -100,21 +109,40 @@ func genHistory(r *fw.Rng, o genOpts) (Payload, int) {
 			emit(specByName["main"], none())
 		}
 	}
+	favours := []string{}
+	if o.favour != "" {
+		favours = strings.Split(o.favour, ",")
+	}
 	for len(pl.Ops) < o.n {
+		// a VM that has cancelled its context: one arbitrary call (below), one short and one long probe
+		if firstFail >= 0 && !o.noCancel && len(pl.Ops) >= firstFail+2 {
+			probes := []Op{fw.Pick(r, shortProbes), fw.Pick(r, longProbes)}
+			if r.Bool() {
+				probes[0], probes[1] = probes[1], probes[0]
+			}
+			for _, pr := range probes {
+				emit(specByName[pr.Fn], pr.Args)
+			}
+			break
+		}
+		favour := ""
+		if len(favours) > 0 {
+			favour = fw.Pick(r, favours)
+		}
 		wantFail := o.failAt == len(pl.Ops) || (o.failAt < 0 && o.failDen > 0 && r.Chance(o.failNum, o.failDen))
 		var s *fnSpec
 		var args []valuni.Val
 		for try := 0; try < 20 && args == nil; try++ {
 			if wantFail && len(failSpecs) > 0 {
 				s = pickSpec(r, failSpecs)
-				if o.favour != "" && specByName[o.favour].GenFail != nil && r.Chance(1, 2) {
-					s = specByName[o.favour]
+				if favour != "" && specByName[favour].GenFail != nil && r.Chance(1, 2) {
+					s = specByName[favour]
 				}
 				args = s.GenFail(r, st, e)
 			} else {
 				s = pickSpec(r, okSpecs)
-				if o.favour != "" && specByName[o.favour].GenOK != nil && r.Chance(1, 3) {
-					s = specByName[o.favour]
+				if favour != "" && specByName[favour].GenOK != nil && r.Chance(1, 3) {
+					s = specByName[favour]
 				}
 				args = s.GenOK(r, st, e)
 			}
@@ -126,10 +154,17 @@ func genHistory(r *fw.Rng, o genOpts) (Payload, int) {
 		if failed && o.stopAtFailure {
 			break
 		}
-		// with a real cancel function every call after the first failure is answered by a termination
-		// failure at once: three of them are enough
-		if firstFail >= 0 && !o.noCancel && len(pl.Ops) >= firstFail+4 {
-			break
+		// what the call may have left behind is looked at right away: by one of its observers or by the same function again
+		if (firstFail < 0 || o.noCancel) && len(s.Then) > 0 && r.Chance(2, 3) {
+			t := s
+			if k := r.Intn(len(s.Then) + 1); k < len(s.Then) {
+				t = specByName[s.Then[k]]
+			}
+			if t.GenOK != nil && o.variant.has(t.Only) && !(t.Tag != "" && o.avoid[t.Tag]) {
+				if targs := t.GenOK(r, st, e); targs != nil {
+					emit(t, targs)
+				}
+			}
 		}
 	}
 	return pl, firstFail
